@@ -99,6 +99,21 @@ class Facts(object):
         """Facts holding on entry to `node` (None if unreachable)."""
         return self.sin[node.id]
 
+    def per_entry(self, node):
+        """One fact set per incoming edge of `node` (facts after the predecessor plus the edge's own branch fact): a node
+        reached by `a or b` has two entries with different facts, whose intersection (`at`) may be empty."""
+        out = []
+        for pred in self.g.nodes:
+            for (succ, label) in pred.succs:
+                if succ is not node or label == "exc":
+                    continue
+                base = self.sout[pred.id]
+                if base is None:
+                    continue
+                st = self._edge(pred, label, node, base)
+                out.append(st)
+        return out
+
     def holds(self, node, pol, text):
         s = self.sin[node.id]
         return s is not None and (pol, text) in s
